@@ -95,7 +95,9 @@ def strip_comments(txt):
 
 
 def theorem_names(pid):
-    txt = strip_comments(open(os.path.join(COQ, "Props", pid + ".v")).read())
+    path = os.path.join(COQ, "Props", pid + ".v")
+    if not os.path.exists(path): return []
+    txt = strip_comments(open(path).read())
     return re.findall(r"^\s*Theorem\s+([A-Za-z0-9_']+)", txt, re.M)
 
 
